@@ -1,8 +1,12 @@
 import PedalModel.DriverLoop
+import PedalModel.ProcStateWire
 open Pedal
 
-/- Line-protocol driver for C13: replace the stub dispatch with the model's request handlers. -/
+/- Line-protocol driver for C13 (process state across gradings). -/
 def dispatch : List String → String
+  | "hist" :: ts => ProcState.WirePS.handleHist ts
+  | "sess" :: ts => ProcState.WirePS.handleSess ts
+  | "tables" :: ts => ProcState.WirePS.handleTables ts
   | _ => "bad-request"
 
 def main : IO Unit := driverMain dispatch
